@@ -263,6 +263,120 @@ fn check_run(ctx: &Ctx, script: &str, kind: &str, muts: &[&str], strategy: Strat
     Some(out)
 }
 
+/// Job control (`set -m`) with a controlling terminal: foreground subshells are jobs in their own
+/// process group, the shell hands them the terminal and takes it back, and keeps one descriptor
+/// (10 or above) for the terminal - or none when the descriptor limit leaves no room for it.
+/// Oracle: the parent's facets before == after each job (descriptors included, whatever the
+/// limit); while a foreground job runs the terminal's foreground process group is the job's, and
+/// back in the main shell it is the shell's.
+fn job_control_slice(ctx: &Ctx) {
+    let limits = ["", "ulimit -n 10", "ulimit -n 11", "ulimit -n 12", "ulimit -n 16"];
+    let jobs_tpl: [(&str, &str); 8] = [
+        ("( )", "( snap entry; {M}; snap j1 )"),
+        ("( ) with an inner subshell", "( snap entry; {M}; (:); snap j1; ( (:) ); : | :; snap j2 )"),
+        ("( ) with an inner substitution", "( snap entry; {M}; : $(:); snap j1; : `true`; snap j2 )"),
+        ("( ) with an inner asynchronous list", "( snap entry; {M}; : & wait; snap j1 )"),
+        ("pipeline", "{ snap entry; {M}; } | { : ; }"),
+        ("pipeline, last stage", "true | { snap entry; {M}; (:); }"),
+        ("function with a subshell body", "jf"),
+        ("nested jobs", "( snap entry; ( {M}; (:) ); snap j1 )"),
+    ];
+    let n = limits.len() * jobs_tpl.len() * 8;
+    ctx.par_for(
+        n,
+        |i| {
+            let lim = limits[i % limits.len()];
+            let (kname, tpl) = jobs_tpl[(i / limits.len()) % jobs_tpl.len()];
+            let mut rng = Rng::new(i as u64 * 31 + 5);
+            let m = *rng.pick(&MUTATORS);
+            // (traps and exec redirections of the set-up are kept: they are part of the state)
+            let mut script = String::new();
+            if !lim.is_empty() {
+                script.push_str(lim);
+                script.push('\n');
+            }
+            script.push_str("set -m\n");
+            script.push_str(&setup(&mut rng));
+            // (the function is defined before the first snapshot: defining it is the parent's own doing)
+            script.push_str(&"jf() ( snap entry; {M}; (:); snap j1 )\n".replace("{M}", m));
+            script.push_str("snap before\n");
+            script.push_str(&tpl.replace("{M}", m));
+            script.push_str("\nsnap after\n(:)\n: | :\nsnap after2\nset +m\n(:)\nsnap after3\n");
+            let mut cfg = vsh::VCfg::script(&script);
+            cfg.strategy = if i % 3 == 0 { Strategy::Fifo } else { Strategy::Random { seed: rng.next(), preempt_pct: 40, max_preempt: 100 } };
+            cfg.extra = vsh::v_probes();
+            cfg.files = vec![
+                ("/d1".into(), FileSpec::Dir),
+                ("/d1/d2".into(), FileSpec::Dir),
+                ("/tmp/in".into(), FileSpec::Regular(b"data\n".to_vec())),
+                ("/dev/tty".into(), FileSpec::Regular(Vec::new())),
+            ];
+            let out = vsh::run_v(cfg);
+            ctx.eval();
+            ctx.count("job_control_runs", 1);
+            let ctxt = || format!("job control on, {kname}, limit `{lim}`, mutator `{m}`\nscript:\n{script}\nstderr:\n{}", out.err());
+            if out.end != vsh::End::Done {
+                ctx.violation(format!("job-control:no-termination:{kname}"), format!("{:?}\n{}", out.end, ctxt()));
+                return;
+            }
+            let snaps: Vec<(String, i32, BTreeMap<String, String>)> = out.events.iter().filter(|e| e.kind == "snap").map(|e| (e.args[0].clone(), e.pid, parse_snap(e))).collect();
+            let find = |tag: &str| snaps.iter().find(|s| s.0 == tag).map(|s| &s.2);
+            let (Some(before), Some(after), Some(after2), Some(after3)) = (find("before"), find("after"), find("after2"), find("after3")) else {
+                ctx.violation(format!("job-control:missing-snapshot:{kname}"), ctxt());
+                return;
+            };
+            for (tag, later) in [("after", after), ("after2", after2), ("after3", after3)] {
+                for f in PARENT_FACETS {
+                    // `set +m` changes the options, and with them the dispositions the shell needs
+                    if tag == "after3" && matches!(f, "options" | "dispositions" | "sigmask") {
+                        continue;
+                    }
+                    if before.get(f) != later.get(f) {
+                        ctx.violation(
+                            format!("job-control:leak:{f}"),
+                            format!("the parent's {f} at `snap {tag}` differ from those before the job\nbefore: {:?}\n{tag}:  {:?}\n{}", before.get(f), later.get(f), ctxt()),
+                        );
+                        return;
+                    }
+                }
+            }
+            // the terminal: foreground group = group of whoever is snapping, in the main shell and in the job
+            let field = |t: &BTreeMap<String, String>, k: &str| -> Option<i64> {
+                t.get("term")?.split(' ').find_map(|kv| kv.strip_prefix(k)?.strip_prefix('=')).and_then(|v| v.trim_start_matches("Some(").trim_end_matches(')').parse().ok())
+            };
+            let main_pid = snaps[0].1;
+            let mut in_job = 0;
+            for (tag, pid, t) in &snaps {
+                let (Some(fg), Some(pgid)) = (field(t, "fg"), field(t, "pgid")) else { continue };
+                // only the job leader's own snapshots and the main shell's are pinned (a pipeline stage
+                // that is not the group leader runs in the leader's group, which is also checked)
+                if *pid != main_pid {
+                    in_job += 1;
+                }
+                if tag == "after3" {
+                    continue;
+                }
+                if fg != pgid {
+                    ctx.violation(
+                        format!("job-control:terminal-foreground-group:{}", if *pid == main_pid { "main-shell" } else { "job" }),
+                        format!("at `snap {tag}` (process {pid}) the terminal's foreground process group is {fg} but the snapping process is in group {pgid}\n{}", ctxt()),
+                    );
+                    return;
+                }
+            }
+            if in_job > 0 {
+                ctx.nontrivial_str(&format!("jc|{kname}|{lim}|{m}"));
+            }
+        },
+        |i, msg| {
+            ctx.violation(
+                if crate::util::panic_in_repo(&msg) { format!("panic:{}", msg.split(": ").next().unwrap_or("")) } else { "harness-panic".into() },
+                format!("job control {i}: {msg}"),
+            )
+        },
+    );
+}
+
 /// Process-creation faults: the k-th fork of the shell fails. Whatever the shell then does (go on
 /// or give up), the parent's own state must be what it was before the subshell command.
 fn fork_fault_slice(ctx: &Ctx) {
@@ -396,6 +510,7 @@ pub fn run(ctx: &Ctx) {
     let quick = ctx.quick();
     let seed = ctx.seed;
     fork_fault_slice(ctx);
+    job_control_slice(ctx);
     // systematic: every mutator x every subshell kind (one mutator each), 2 setups
     let nsys = MUTATORS.len() * KINDS.len() * 2;
     ctx.par_for(
